@@ -108,6 +108,126 @@ class instrumented:
         return False
 
 
+# ------------------------------------------------------------------ cooperative locks
+# The library creates no locks today.  If a change adds one (threading.Lock / RLock created by
+# code under openskill/), a worker parked by the scheduler while holding it would make any
+# other worker's acquire() block for real - with the baton in its hand: a deadlock the library
+# does not have.  Locks created by library code are therefore wrapped: inside a scheduled
+# worker a contended acquire() hands the baton to another thread (a scheduling decision like
+# any other, recorded and replayable) and retries; everywhere else it is the real lock.
+
+_workers = {}  # thread ident -> (Sched, thread index) of scheduled workers
+_real_Lock = threading.Lock
+_real_RLock = threading.RLock
+_lock_seam = False
+
+
+_coop_locks = None
+
+
+class CoopLock:
+    def __init__(self, real):
+        global _coop_locks
+        import weakref
+
+        self._real = real
+        self._owner = None
+        self._count = 0
+        if _coop_locks is None:
+            _coop_locks = weakref.WeakSet()
+        _coop_locks.add(self)
+
+    def _got(self):
+        self._owner = _thread.get_ident()
+        self._count += 1
+        return True
+
+    def acquire(self, blocking=True, timeout=-1):
+        me = _thread.get_ident()
+        ent = _workers.get(me)
+        if ent is None or not blocking:
+            if blocking and not _workers:
+                # sequential part of a run: if it is held, nobody is left who could release it
+                if self._real.acquire(False):
+                    return self._got()
+                raise HarnessError("library lock held by a thread that no longer runs (or self-deadlock)")
+            ok = self._real.acquire(blocking, timeout)
+            return self._got() if ok else False
+        sc, i = ent
+        if self._real.acquire(False):
+            return self._got()
+        sc.waiting[i] = True
+        try:
+            while True:
+                sc.blocked_yield(i)
+                if self._real.acquire(False):
+                    return self._got()
+        finally:
+            sc.waiting[i] = False
+
+    def release(self):
+        self._count -= 1
+        if self._count <= 0:
+            self._count = 0
+            self._owner = None
+        self._real.release()
+
+    def locked(self):
+        return self._real.locked()
+
+    def __enter__(self):
+        self.acquire()
+        return self
+
+    def __exit__(self, *a):
+        self.release()
+        return False
+
+    def __getattr__(self, name):
+        return getattr(self._real, name)
+
+
+def release_leaked():
+    """After an injected kill: an exception raised at the LINE event that precedes the
+    __exit__ call of a `with lock:` block escapes without releasing the lock.  CPython itself
+    never delivers an asynchronous exception there (no eval-breaker check between the end of
+    the block and the call of __exit__), so the injection point is harsher than reality; the
+    locks the killed thread still owns are released on its behalf and the event is counted."""
+    me = _thread.get_ident()
+    n = 0
+    for l in list(_coop_locks or ()):
+        while l._owner == me and l._count > 0:
+            l.release()
+            n += 1
+    return n
+
+
+leaked_locks_released = [0]
+
+
+def _from_library():
+    f = sys._getframe(2)
+    return f is not None and f.f_code.co_filename.startswith(_pkg())
+
+
+def _lock_factory(*a, **k):
+    real = _real_Lock(*a, **k)
+    return CoopLock(real) if _from_library() else real
+
+
+def _rlock_factory(*a, **k):
+    real = _real_RLock(*a, **k)
+    return CoopLock(real) if _from_library() else real
+
+
+def install_lock_seam():
+    global _lock_seam
+    if not _lock_seam:
+        threading.Lock = _lock_factory
+        threading.RLock = _rlock_factory
+        _lock_seam = True
+
+
 def short_loc(code, where):
     return (code.co_filename[len(_PKG):], code.co_firstlineno, where)
 
@@ -144,6 +264,7 @@ class LineCounter:
                 try:
                     return ("ok", fn())
                 except SimCrash:
+                    leaked_locks_released[0] += release_leaked()
                     return ("crash", None)
                 except SimAbort:
                     raise
@@ -322,6 +443,8 @@ class Sched:
         self.call_idx = [-1] * n
         self.call_steps = [0] * n
         self.in_call = [False] * n
+        self.waiting = [False] * n  # spinning on a cooperative lock
+        self.lock_waits = 0
         self.loc = [None] * n
         self.decisions = []  # RLE
         self.switches = 0
@@ -375,14 +498,48 @@ class Sched:
             if self.error is not None:
                 raise SimAbort("aborted")
 
+    def blocked_yield(self, i):
+        """Thread i cannot proceed (a cooperative lock is held by a parked thread): the baton
+        must go to somebody else.  Everybody waiting = a deadlock of the library's own making."""
+        self.steps += 1
+        self.lock_waits += 1
+        if self.steps > self.step_cap:
+            raise SimAbort("step cap %d exceeded (lock wait)" % self.step_cap)
+        runnable = [t for t in range(self.n) if self.alive[t] and t != i and not self.waiting[t]]
+        if not runnable:
+            raise SimAbort("deadlock: every live worker waits for a lock")
+        # masked for this decision only: the chooser must pick a thread that can actually run
+        # (neither the caller nor another waiter - two high-priority waiters would otherwise
+        # hand the baton to each other for ever while the owner never runs)
+        saved = list(self.alive)
+        for t in range(self.n):
+            if t == i or self.waiting[t]:
+                self.alive[t] = False
+        try:
+            nxt = self.chooser.choose(None, self.alive, self)
+            if nxt is None or not self.alive[nxt]:
+                raise SimAbort("chooser returned dead thread %r" % (nxt,))
+            rle_append(self.decisions, nxt)
+        finally:
+            self.alive[:] = saved
+        self.switches += 1
+        self.sig.update(repr((i, "lock", nxt, self.loc[nxt])).encode())
+        self.locks[nxt].release()
+        self.locks[i].acquire()
+        if self.error is not None:
+            raise SimAbort("aborted")
+
     def rearm(self, i):
-        pass  # monitoring callbacks stay installed after an exception (unlike sys.settrace)
+        # monitoring callbacks stay installed after an exception (unlike sys.settrace);
+        # what a killed call may leave behind is a lock (see release_leaked)
+        leaked_locks_released[0] += release_leaked()
 
     def _body(self, i, fn):
         self.locks[i].acquire()
         if self.error is None:
             me = _thread.get_ident()
             _active[me] = lambda code, where: self._yield(i, code, where)
+            _workers[me] = (self, i)
             try:
                 fn(self, i)
             except SimAbort as e:
@@ -395,6 +552,7 @@ class Sched:
                     self.error = "thread %d: %r\n%s" % (i, e, traceback.format_exc())
             finally:
                 _active.pop(me, None)
+                _workers.pop(me, None)
         self.alive[i] = False
         nxt = None
         if any(self.alive):
